@@ -1,2 +1,142 @@
-(* C03 — placeholder while the model is being validated *)
-Require Import AV.Lib.Base AV.H1.ConnRec AV.H1.ConnState.
+(* C03 — HTTP/1 reuse discipline: close means close; unread bodies never reparsed.
+   Statements only; proofs in H1/ConnProofs.v, ConnSeal.v, ConnCtx.v, ConnLocal.v.
+   Model: H1/ConnState.v (event-level transcription of h1/dispatcher.rs + codec context).
+   [run_events c es s] runs an ARBITRARY sequence of dispatcher events; every [poll] of the
+   correspondence driver is one such sequence (C03_poll_is_event_sequence).
+   [fx c] says which repairs the modelled tree contains: fx_ctx = fixes/F12.patch (in the tree),
+   fx_sd = fixes/F14.patch (in the tree), fx_close = the F15 repair that the test-suite rejects
+   (NOT in the tree: C03_refuted_close_then_more is a known finding). *)
+Require Import AV.Lib.Base AV.H1.ConnRec AV.H1.ConnState AV.H1.ConnSpec AV.H1.ConnProofs.
+Require Import AV.H1.ConnGraceful AV.H1.ConnSeal AV.H1.ConnCtx AV.H1.ConnLocal.
+
+(* every invariant of the event steps is an invariant of whole polls *)
+Theorem C03_poll_is_event_sequence : forall (c : cfg) (P : st -> Prop),
+  (forall e s, P s -> P (step c e s)) -> forall rs s, P s -> P (run_polls c rs s).
+Proof. intros c P H rs s. apply run_polls_steps. exact H. Qed.
+
+(* ---- "close means close" ------------------------------------------------------------------ *)
+(* FULL STATEMENT (C03_silent_after_close): for every configuration, handler scripts and event
+   sequence, quiet_after_close (trace (run_events c es (init c hs))) = true.
+   FALSE of the code (F15), with or without fixes/F12.patch: *)
+Definition f15_case_cfg (f : fixes) : cfg := mkCfg (KaTimeout 5000) 0 0 true false f.
+Definition f15_req0 := mkReq 0 false true OClose RBNone.     (* GET /r0, Connection: close *)
+Definition f15_req1 := mkReq 1 false true ONone RBNone.      (* GET /r1 pipelined behind it *)
+Definition f15_run (f : fixes) : st :=
+  run_polls (f15_case_cfg f) [mkRound 0 [IReq f15_req0; IReq f15_req1] RPending false false false]
+            (init (f15_case_cfg f) [[HRespond ONone 0 0]; [HRespond ONone 0 0]]).
+
+Theorem C03_refuted_close_then_more :
+  quiet_after_close (trace (f15_run no_fixes)) = false /\
+  quiet_after_close (trace (f15_run (mkFixes true false true))) = false /\
+  (* the second request is dispatched and answered after the response that announced close *)
+  trace (f15_run (mkFixes true false true)) =
+    [TDecode f15_req0; TStart f15_req0; THead (Some f15_req0) 200 true false CClose; TComplete;
+     TDecode f15_req1; TStart f15_req1; THead (Some f15_req1) 200 true false CKeepAlive; TComplete; TKeepAlive].
+Proof. vm_compute. repeat split; reflexivity. Qed.
+
+(* What holds of the code as it is: a SEALED state (closing response complete, nothing queued, read
+   side stopped or lingering / shutting down; or closing response still streaming) is never left and
+   adds no response head and no service call, whatever events follow. The three repairs together
+   make every closing response seal the connection (C03_closing_response_seals); in the tree as
+   delivered (fx_close = false) the sealing step is missing exactly in the F15 class. *)
+Theorem C03_sealed_is_silent : forall c es s, all_fixes c -> Sealed s ->
+  Sealed (run_events c es s) /\
+  exists l, trace (run_events c es s) = trace s ++ l /\ forallb (fun e => negb (active_ev e)) l = true.
+Proof.
+  intros c es s F S. destruct (run_events_Z c es F s S) as [S' [l [T Q]]].
+  split; [exact S'|]. exists l. split; [exact T|].
+  erewrite forallb_ext; [exact Q|]. intros [] ; reflexivity.
+Qed.
+
+Theorem C03_closing_response_seals : forall c who st ro bl bp s,
+  fx_close (fx c) = true -> started s = true -> t_active (head_t s) = false ->
+  resp_conn c ro s = CClose -> Sealed (send_response c who st ro bl bp s).
+Proof. exact send_response_seals. Qed.
+
+(* error responses: a 400/431 is popped when nothing is queued behind it and reading has stopped;
+   holds of the code as it is (any fixes) *)
+Theorem C03_silent_after_error : forall c st s,
+  messages s = [] -> read_disc s = true -> started s = true -> t_active (head_t s) = false ->
+  Sealed (send_response c None st ONone 0 0 s).
+Proof. exact error_response_seals. Qed.
+
+(* the 408: with fixes/F14.patch the head timer fires once and seals *)
+Theorem C03_silent_after_408 : forall c s,
+  fx_sd (fx c) = true -> t_ready (head_t s) (now s) = true -> shutdown s = false -> read_disc s = false ->
+  messages s = [] -> started s = true ->
+  Sealed (poll_head_timer c s) /\
+  exists k, trace (poll_head_timer c s) = trace s ++ [THead None 408 (c_v11 s) (c_head s) k; TComplete].
+Proof. exact head_timer_seals. Qed.
+
+(* without it a peer that does not read gets one more 408 per poll (part of F14) *)
+Theorem C03_refuted_408_repeated :
+  let c := mkCfg (KaTimeout 5000) 1000 1000 true false no_fixes in
+  let blocked := mkRound 1001 [] RPending true false false in
+  count_heads 408 (trace (run_polls c [mkRound 0 [] RPending false false false; blocked; blocked; blocked] (init c []))) = 3%nat.
+Proof. vm_compute. reflexivity. Qed.
+
+(* ---- per-request context (F12, repaired by fixes/F12.patch) ------------------------------- *)
+Theorem C03_refuted_context_overwritten :
+  let c := mkCfg (KaTimeout 5000) 0 0 true false no_fixes in
+  let r0 := mkReq 0 false true ONone RBNone in                (* GET, handler pending once *)
+  let r1 := mkReq 1 true false ONone RBNone in                (* HEAD, HTTP/1.0 *)
+  let idle := mkRound 0 [] RPending false false false in
+  own_context c (trace (run_polls c [mkRound 0 [IReq r0; IReq r1] RPending false false false; idle]
+                                  (init c [[HPend; HRespond ONone 3 0]; [HRespond ONone 3 0]]))) = false.
+Proof. vm_compute. reflexivity. Qed.
+
+Theorem C03_response_uses_own_context : forall c hs es,
+  fx_ctx (fx c) = true -> own_context c (trace (run_events c es (init c hs))) = true.
+Proof. intros c hs es F. apply own_context_always. exact F. Qed.
+
+(* ---- KEEP_ALIVE only after the exact end of the request body -------------------------------- *)
+(* always: the dispatcher holds a payload sender exactly while the codec is inside a body, unless
+   reading has stopped for good; so a request head is only ever decoded at a message boundary *)
+Theorem C03_body_discipline : forall c hs es,
+  let s := run_events c es (init c hs) in
+  (payload s <> None -> c_pl s = true) /\ (payload s = None -> c_pl s = true -> read_disc s = true).
+Proof. intros c hs es. apply run_events_B. apply init_B. Qed.
+
+(* the idle decision sets KEEP_ALIVE only when no payload is outstanding and the context allows it *)
+Theorem C03_keepalive_only_after_exact_body_end : forall c f s,
+  dstate s = SNone -> draining s = false -> messages s = [] ->
+  keep_alive (poll_response (S f) c s) = true -> payload s = None /\ c_conn s = CKeepAlive.
+Proof. exact keepalive_decision. Qed.
+
+(* ---- response finished while the payload is unread and undrainable -------------------------- *)
+Theorem C03_unread_undrainable_closes : forall c who st ro bl bp s,
+  close_unread s = true -> (fx_ctx (fx c) = true -> messages s = []) ->
+  let s' := send_response c who st ro bl bp s in
+  trace s' = trace s ++ THead who st (c_v11 s) (c_head s) CClose :: (if bl =? 0 then [TComplete] else []) /\
+  c_conn s' = CClose /\
+  (bl = 0 -> finished s' = true /\ (linger s' || shutdown s') = true /\ dstate s' = SNone).
+Proof. exact unread_payload_closes. Qed.
+
+Theorem C03_unread_at_body_end_closes : forall c s,
+  close_unread s = true -> messages s = [] ->
+  let s' := body_end c s in finished s' = true /\ (linger s' || shutdown s') = true /\ dstate s' = SNone.
+Proof. exact body_end_unread_closes. Qed.
+
+(* ---- LINGER drops what it reads --------------------------------------------------------------- *)
+Theorem C03_linger_discards : forall c wb s,
+  let s' := poll_linger c wb s in
+  dstate s' = dstate s /\ messages s' = messages s /\ hs s' = hs s /\ chans s' = chans s /\
+  (exists l, trace s' = trace s ++ l /\ forallb is_discard l = true) /\
+  (forall s1 s2 s3 d, flush wb s = (s1, true) -> ensure_linger_timer c s1 = (s2, true) ->
+                      read_available s2 = (s3, d, false) -> rbuf s' = []).
+Proof.
+  intros c wb s. destruct (linger_no_dispatch c wb s) as (A & B & C & D & E).
+  repeat split; auto. intros. eapply linger_drops_what_it_reads; eauto.
+Qed.
+
+(* non-vacuity: an early response to a request whose 20-byte body has not arrived, disconnect
+   timeout configured: close announced, LINGER entered, the late body bytes are discarded *)
+Example C03_example :
+  let c := mkCfg (KaTimeout 5000) 0 1000 true false (mkFixes true false true) in
+  let r0 := mkReq 0 false true ONone RBLen in
+  let s := run_polls c [mkRound 0 [IReq r0; IData 5] RPending false false false;
+                        mkRound 7 [IData 15; IEnd] RPending false false false]
+                     (init c [[HRespond ONone 0 0]]) in
+  trace s = [TDecode r0; TStart r0; THead (Some r0) 200 true false CClose; TComplete; TDiscard 2] /\
+  linger s = true /\ quiet_after_close (trace s) = true.
+Proof. vm_compute. repeat split; reflexivity. Qed.
